@@ -2,6 +2,7 @@ package rules
 
 import (
 	"fmt"
+	"go/token"
 	"go/types"
 	"strings"
 
@@ -14,6 +15,7 @@ func init() {
 	register(&Spec{
 		ID: "C16",
 		Explanation: "Decides: R1 when a recovery function is configured a deferred closure calling recover() is installed before every call the serving function makes (tree lookup, CORS, the user's CallFunc), for Router.serveContext and for the group's not-found path; every recover() of the module sits in such a guarded deferred closure (so without the option nothing is recovered); R2 the closure calls the configured function exactly once, on the edge where the recovered value is non-nil, with the response writer and the recovered value itself; R3 the option reaches the router: NewRouter/NewGroup store buildOption's recoverFunc, Group.New passes the group's options before the call's own; R4 the context is released on the recovery path too (deferred in Group, after serveContext returns in Router — recovery happens inside serveContext). " +
+			"R11 (= C07.R12) NewGroup / NewRouter / Group.New do not keep the caller's option slice. " +
 			"Not decided: panics inside user-supplied matchers (outside the property).",
 		Assumptions: commonAssumptions,
 		Run: func(c *Ctx) {
@@ -27,6 +29,8 @@ func init() {
 			ruleOptionClosuresStore(c, "R8")
 			ruleRecoveryShorthands(c, "R9")
 			ruleRecoveryFieldOwnership(c, "R10")
+			ruleCallersSlicesAreNotRetained(c, "R11", "NewGroup|NewRouter|Group).New")
+			rulePoolReleaseOnce(c, "R12")
 		},
 	})
 	register(&Spec{
@@ -204,6 +208,19 @@ func ruleRecoverInstalled(c *Ctx, rule string) {
 }
 
 // ruleRecoverClosure is C16.R2.
+// paramOrItsTarget: v is a parameter, or what a pointer parameter points to (*f).
+func paramOrItsTarget(v ssa.Value) (*ssa.Parameter, bool) {
+	if p, ok := v.(*ssa.Parameter); ok {
+		return p, true
+	}
+	if u, ok := v.(*ssa.UnOp); ok && u.Op == token.MUL {
+		if p, ok := u.X.(*ssa.Parameter); ok {
+			return p, true
+		}
+	}
+	return nil, false
+}
+
 func ruleRecoverClosure(c *Ctx, rule string) {
 	c.R.Rule(c.R.Property+"."+rule, 1, "the recovery function receives the original panic value exactly once")
 	for _, cl := range recoverClosures(c) {
@@ -218,7 +235,7 @@ func ruleRecoverClosure(c *Ctx, rule string) {
 			if call, ok := in.(*ssa.Call); ok && strings.HasPrefix(an.CalleeName(&call.Call), "dynamic:") {
 				if strings.HasSuffix(an.CalleeName(&call.Call), ".recoverFunc") {
 					calls = append(calls, call)
-				} else if par, isPar := call.Call.Value.(*ssa.Parameter); isPar {
+				} else if par, isPar := paramOrItsTarget(call.Call.Value); isPar {
 					// the configured function handed to a named recovering function by every defer site
 					args := argsOfParam(par)
 					all := len(args) > 0
@@ -675,12 +692,12 @@ func ruleHeadWriter(c *Ctx, rule string) {
 		return t == "binop<+>(recv.size, call<builtin:len>("+bytesParam+"))" || t == "binop<+>(call<builtin:len>("+bytesParam+"), recv.size)"
 	}
 	isLength := func(in ssa.Instruction) bool {
-		call, ok := calleeNamed(in, "net/http.Header.Set")
+		name, val, ok := headerSetLike(in)
 		if !ok {
 			return false
 		}
-		n, _ := strConst(call.Args[1])
-		v := c.O.Of(call.Args[2]).String()
+		n, _ := strConst(name)
+		v := c.O.Of(val).String()
 		return n == "Content-Length" && strings.HasPrefix(v, "call<strconv.Itoa>(") && strings.Contains(v, "recv.size")
 	}
 	isRet := func(t ssa.Instruction) bool { _, ok := t.(*ssa.Return); return ok }
@@ -707,14 +724,14 @@ func ruleHeadWriter(c *Ctx, rule string) {
 	// bytes of the first Write. The wrapper swallows the bytes, so it has to do the same or HEAD lacks that header.
 	sniffs, guarded := false, false
 	an.AllInstrs(write, func(in ssa.Instruction) {
-		call, ok := calleeNamed(in, "net/http.Header.Set")
+		hname, hval, ok := headerSetLike(in)
 		if !ok {
 			return
 		}
-		if n, _ := strConst(call.Args[1]); n != "Content-Type" {
+		if n, _ := strConst(hname); n != "Content-Type" {
 			return
 		}
-		if c.O.Of(call.Args[2]).String() != "call<net/http.DetectContentType>("+bytesParam+")" {
+		if c.O.Of(hval).String() != "call<net/http.DetectContentType>("+bytesParam+")" {
 			return
 		}
 		sniffs = true
@@ -749,8 +766,8 @@ func ruleHeadWriter(c *Ctx, rule string) {
 	if sniffs && guarded {
 		nonEmpty := false
 		an.AllInstrs(write, func(in ssa.Instruction) {
-			call, ok := calleeNamed(in, "net/http.Header.Set")
-			if !ok || c.O.Of(call.Args[2]).String() != "call<net/http.DetectContentType>("+bytesParam+")" {
+			_, hval, ok := headerSetLike(in)
+			if !ok || c.O.Of(hval).String() != "call<net/http.DetectContentType>("+bytesParam+")" {
 				return
 			}
 			nonEmpty = an.DominatedByEdge(in, func(b *ssa.BasicBlock, succ int) bool {
